@@ -106,8 +106,9 @@ Definition code_sel_expected (id : Z) : list (Z * list Z) :=
   match id with
   | 33 | 35 => [(0, [1; 65535])]
   | 34 => [(0, [0; 65535])]
-  | 39 | 11 => [(0, [1; 268435455])]
-  | 1 | 23 | 25 => [(1, [0; 1])]
+  | 11 => [(0, [1; 268435455])]
+  | 39 => [(0, [1; 4294967295])]
+  | 1 | 23 | 25 | 36 | 37 | 40 | 41 | 42 => [(1, [0; 1])]
   | _ => []
   end.
 
@@ -146,25 +147,20 @@ Proof.
   destruct (sel_ok (code_sel_expected i) x); reflexivity.
 Qed.
 
-Definition flag_ids : list Z := [36; 37; 40; 41; 42].
 Definition ids27 : list Z := map snd (t_names GT).
 
 Ltac each_id H := vm_compute in H; repeat (destruct H as [<-|H]); [..|contradiction].
 
-(* on type-correct values: the source's check = the specification's range, except that
-   - Maximum Packet Size (39) is cut at 268 435 455 (F-C17b), and
-   - the five CONNACK 0/1 flags are not checked at all (F-C17e) *)
+(* on type-correct values the source's check IS the specification's range *)
 Lemma code_range_vs_spec i w v n : In (n, i) (t_names GT) -> spec_type i = Some w -> spec_fits w v = true ->
-  code_range_ok GT i v =
-    if memz i flag_ids then true
-    else spec_in_range i v && match v with VInt x => negb (i =? 39) || (x <=? 268435455) | _ => true end.
+  code_range_ok GT i v = spec_in_range i v.
 Proof.
   intros I Hw Hf. rewrite (code_range_sel n i v I).
   assert (Hi : In i ids27) by (apply in_map_iff; exists (n, i); split; [reflexivity|assumption]).
   clear I. each_id Hi;
     vm_compute in Hw; injection Hw as <-;
     destruct v as [x|[u|b]|[ua|ba] [ub|bb]]; cbn [spec_fits] in Hf; try discriminate; try reflexivity;
-    cbv [code_sel_expected range_check_sel group_fails memz flag_ids existsb spec_in_range spec_range];
+    cbv [code_sel_expected range_check_sel group_fails memz existsb spec_in_range spec_range];
     unfold zin in *; repeat case_if; try reflexivity; lia.
 Qed.
 
@@ -180,59 +176,28 @@ Proof.
 Qed.
 
 Lemma code_range_state_of_spec pt st : wf_state GT pt st = true -> spec_range_state st = true ->
-  maxpkt_small st = true -> code_range_state GT st = true.
+  code_range_state GT st = true.
 Proof.
-  intros HW HR HM. unfold code_range_state, spec_range_state, maxpkt_small, state_all, wf_state in *.
+  intros HW HR. unfold code_range_state, spec_range_state, state_all, wf_state in *.
   rewrite forallb_forall in *. intros [i s] Hin. cbn [fst snd].
-  specialize (HW _ Hin). specialize (HR _ Hin). specialize (HM _ Hin). cbn [fst snd] in HR, HM.
-  rewrite forallb_forall in *. intros v Hv. specialize (HR _ Hv). specialize (HM _ Hv).
+  specialize (HW _ Hin). specialize (HR _ Hin). cbn [fst snd] in HR.
+  rewrite forallb_forall in *. intros v Hv. specialize (HR _ Hv).
   destruct (wf_entry_parts pt i s HW) as (n & w & I & Hw & HO).
-  rewrite (code_range_vs_spec i w v n I Hw (stored_ok_fits _ _ _ _ HO Hv)).
-  destruct (memz i flag_ids); [reflexivity|]. rewrite HR. cbn [andb]. destruct v; try reflexivity. exact HM.
+  rewrite (code_range_vs_spec i w v n I Hw (stored_ok_fits _ _ _ _ HO Hv)). exact HR.
 Qed.
 
 Lemma c17_pack_spec pt st : wf_state GT pt st = true -> body_small GT st = true ->
   exists b, pack GT st = Ok b /\ spec_pack (canon GT st) = Some b.
 Proof. apply pack_spec. exact tables_ok_GT. Qed.
 
-(* full statement: every type-correct property set whose values are in the specification's ranges
-   survives pack + unpack.  Refuted twice (F-C17b, F-C17d); proved with the two exclusions. *)
-Definition c17_roundtrip_full : Prop :=
-  forall pt st rest, wf_state GT pt st = true -> body_small GT st = true -> spec_range_state st = true ->
-  exists b, pack GT st = Ok b /\ unpack GT pt (b ++ rest) = Ok (norm GT st, blen b).
-
-Lemma c17_roundtrip_partial pt st rest :
+(* every type-correct property set whose values are in the specification's ranges survives pack + unpack:
+   same values, repeated properties in the same order, exactly the packed length used *)
+Lemma c17_roundtrip pt st rest :
   wf_state GT pt st = true -> body_small GT st = true -> spec_range_state st = true ->
-  maxpkt_small st = true ->        (* exclusion F-C17b: Maximum Packet Size <= 268 435 455 *)
-  no_feff_state st = true ->       (* exclusion F-C17d: no U+FEFF in any string *)
   exists b, pack GT st = Ok b /\ unpack GT pt (b ++ rest) = Ok (norm GT st, blen b).
 Proof.
-  intros HW HB HR HM HF. apply unpack_pack; try assumption; [exact tables_ok_GT|].
-  exact (code_range_state_of_spec pt st HW HR HM).
-Qed.
-
-Definition roundtrip_fails (pt : Z) (st : pstate) (rest : list Z) : Prop :=
-  wf_state GT pt st = true /\ body_small GT st = true /\ spec_range_state st = true /\
-  ~ (exists b, pack GT st = Ok b /\ unpack GT pt (b ++ rest) = Ok (norm GT st, blen b)).
-
-(* F-C17b: CONNECT with Maximum Packet Size 268 435 456 packs to 05 27 10 00 00 00, unpack raises MQTTException *)
-Lemma c17_roundtrip_refuted_b : roundtrip_fails CONNECT [(39, One (VInt 268435456))] [].
-Proof.
-  split; [vm_compute; reflexivity|]. split; [vm_compute; reflexivity|]. split; [vm_compute; reflexivity|].
-  intros [b [H1 H2]]. vm_compute in H1. injection H1 as <-. vm_compute in H2. discriminate.
-Qed.
-
-(* F-C17d: PUBLISH with User Property ("﻿", "x") packs, unpack raises MalformedPacket *)
-Lemma c17_roundtrip_refuted_d :
-  roundtrip_fails PUBLISH [(38, Many [VPair (SStr [239; 187; 191]) (SStr [120])])] [].
-Proof.
-  split; [vm_compute; reflexivity|]. split; [vm_compute; reflexivity|]. split; [vm_compute; reflexivity|].
-  intros [b [H1 H2]]. vm_compute in H1. injection H1 as <-. vm_compute in H2. discriminate.
-Qed.
-
-Lemma c17_roundtrip_refuted : ~ c17_roundtrip_full.
-Proof.
-  intros H. destruct c17_roundtrip_refuted_b as (A & B & C & D). apply D. apply H; assumption.
+  intros HW HB HR. apply unpack_pack; try assumption; [exact tables_ok_GT|].
+  exact (code_range_state_of_spec pt st HW HR).
 Qed.
 
 (* allowsMultiple vs the specification, wherever the property is allowed - except Subscription Identifier in SUBSCRIBE *)
